@@ -32,7 +32,7 @@ static const InstructionInfo instruction_table[256];
 #define ISA_PTR_R1(p, n) ISA_PTR_R(p, n)
 #define ISA_SEP(p, q) (!__CPROVER_same_object(p, q))
 /* general frame: len <= ISA_MAX_INSTRUCTION_SIZE by C11.table.k */
-#define ISA_ASSIGNS_ENC __CPROVER_object_upto(buf, MINSZ(buf_size, (size_t)ISA_MAX_INSTRUCTION_SIZE))
+#define ISA_ASSIGNS_ENC buf_size >= ISA_MAX_INSTRUCTION_SIZE: __CPROVER_object_upto(buf, ISA_MAX_INSTRUCTION_SIZE); buf_size < ISA_MAX_INSTRUCTION_SIZE: __CPROVER_object_upto(buf, buf_size)
 #endif
 
 /* The buffer object is made exactly min(buf_size, spec_len(K)) bytes long when the
